@@ -134,6 +134,8 @@ def sc_backup_round(name, rnd, me=None, srih=False, h0=0, unsolicited=0, dup=Fal
     talk = [v for v in backups if v != quiet]
 
     def junk():
+        if gp and rnd.random() < 0.15:
+            s.step("raw", p=rnd.choice(gp), kind=rnd.choice(["trunc", "longcat", "emptyinv", "badcmd"]))
         if gp and rnd.random() < 0.6:
             g = rnd.choice(gp)
             kind = rnd.choice(["badsig", "magic", "stranger", "forged", "future", "past", "cat", "edge"])
@@ -272,14 +274,14 @@ def sc_race(name, rnd, srih=False):
 def scripted(rnd, q):
     out = [sc_race("race-lookup-request", rnd), sc_maxhashes("maxhashes-0", rnd), sc_behind("behind-starved", rnd, False),
            sc_behind("behind-catchup", rnd, True), sc_two_heights("two-heights-0", rnd, srih=False, h0=0)]
-    for k in range(3 if q else 16):
+    for k in range(4 if q else 16):
         out.append(sc_fresh_views("fresh-views-%d" % k, rnd, h0=rnd.choice([0, 1, 2, 3]), srih=(k % 2 == 1)))
     for k in range(1 if q else 3):
         out.append(sc_fresh_views("fresh-views-big-%d" % k, rnd, h0=rnd.choice([0, 1]), big=True))
     for k in range(1, 2 if q else 6):
         out.append(sc_two_heights("two-heights-%d" % k, rnd, srih=(k % 2 == 1), h0=rnd.choice([0, 1, 2, 5])))
         out.append(sc_maxhashes("maxhashes-%d" % k, rnd))
-    for k in range(12 if q else 240):
+    for k in range(24 if q else 240):
         out.append(sc_backup_round("round-%d" % k, rnd, srih=(k % 3 == 1), h0=rnd.choice([0, 0, 1, 2, 3]), unsolicited=rnd.choice([0, 0, 1, 2, 5]),
                                    dup=rnd.random() < 0.5, mute=rnd.choice([0, 0, 1, 1, 2]), npeers=rnd.choice([3, 3, 4]), silent=rnd.random() < 0.45,
                                    badtx=rnd.random() < 0.2, garbage=rnd.choice([0, 1, 2]), late_peer=rnd.random() < 0.3))
@@ -324,7 +326,7 @@ def realise(hist, name, rnd):
             s.step("give", p=ids[p], t=worse, bad=True)
     spec = {"r": dict(typ="PrepareRequest", frm=1, txs=[tname[t] for t in named], kind=""), "y": dict(typ="PrepareResponse", frm=2, kind=""),
             "z": dict(typ="Commit", frm=3, kind=rnd.choice(BADKINDS)), "c": dict(typ="Commit", frm=2, kind="cat")}
-    defined = set()
+    defined, announced = set(), set()
     for j, st in enumerate(steps):
         if st["op"] == "start":
             s.sync()
@@ -334,15 +336,21 @@ def realise(hist, name, rnd):
         m, p = st["m"], ids[st["p"]]
         if st["idle"]:
             s.sync()
-        if m["k"] == "x":
+        if m["k"] in ("x", "i"):
             x = m["x"]
+            inv = m["k"] == "i"
+            if not inv and (p, x) in announced:
+                announced.discard((p, x))      # (the copy the peer serves when the node asks for what it announced)
+                continue
+            if inv:
+                announced.add((p, x))
             if x in defined:
-                s.resend(p, "m-" + x, via=rnd.choice(["push", "push", "inv"]))
+                s.resend(p, "m-" + x, via="inv" if inv else "push")
             else:
                 # a payload is crafted for the height the node has when it is first sent
                 defined.add(x)
                 sp = spec[x]
-                s.x(p, sp["typ"], sp["frm"], name="m-" + x, txs=sp.get("txs", ()), kind=sp["kind"], via=rnd.choice(["push", "push", "inv"]))
+                s.x(p, sp["typ"], sp["frm"], name="m-" + x, txs=sp.get("txs", ()), kind=sp["kind"], via="inv" if inv else "push")
         elif m["k"] == "t":
             s.step("tx", p=p, t=[tname[m["t"]]], bad=not m["ok"], via=rnd.choice(["push", "push", "inv"]))
         elif m["k"] == "g" and m["x"] in defined:
@@ -353,6 +361,7 @@ def realise(hist, name, rnd):
         s.step("fetchblk", p=rnd.choice([i for i in range(1, k + 1)]), i=1, by=rnd.choice(["hash", "index"]))
         s.sync()
     s.d["expect"] = "model: pc=%s closed=%s" % (hist["pc"], ",".join(hist["closed"]))
+    s.d["model"] = {"pc": hist["pc"], "closed": sorted(ids[p] for p in hist["closed"])}
     return s.d
 
 
@@ -403,7 +412,7 @@ def run_ext(ctx):
                 continue
             fresh.append(h)
         rnd.shuffle(fresh)
-        for j, h in enumerate(fresh[: (10 if q else 260)]):
+        for j, h in enumerate(fresh[: (16 if q else 260)]):
             scenarios.append(realise(h, "tlc-%s-%d" % (fam, j), rnd))
     if not scenarios:
         raise vlib.Inconclusive("consnet: no ConsNetSim behaviours generated")
@@ -432,6 +441,7 @@ def run_ext(ctx):
         "connection + unchanged event / loop / ledger counters; what is MISSING at such a point counts only after a replay with slow settling "
         "(40 rounds and 2.5 s of idleness); a missing answer to ONE proposal is informational - judged is that the height gets decided within "
         "3 views when every non-silent validator is honest and the named transactions are served")
+    impl_drift(ctx, trace, scenarios)
     # 6. binding self-tests
     if clean:
         selftest(ctx, trace)
@@ -502,9 +512,11 @@ def judge(ctx, trace, scenarios, confirm=True):
     fails = ctx.trace_judge_parts(SUB, "ConsNetTrace.tla", "Trace_ConsNet.cfg", events, max_events=30000, timeout=3000)
     ctx.extra["consnet_trace_events"] = ctx.extra.get("consnet_trace_events", 0) + len(events)
     starts = segments(events)
+    if confirm:
+        ctx.extra["consnet_established"] = established(events)
     info = ctx.extra.setdefault("consnet_informational", {})
     bad_harness, late, verdicts = [], {}, []
-    drifted = set()
+    drifted, noresp = set(), set()
     for f in fails:
         li = f["line"] - 1
         s = starts[li]
@@ -513,6 +525,8 @@ def judge(ctx, trace, scenarios, confirm=True):
         for w in f["what"]:
             if w.startswith("i:"):
                 info[w] = info.get(w, 0) + 1
+                if w == "i:ProposalTxs:no-response" and confirm:
+                    noresp.add(name)
                 if w in DRIFT and (w, name.split("-")[0]) not in drifted and len(ctx.spec_drift) < 18:
                     # what the code does where the statement (as read by the lead) is silent: recorded with its measured consequence
                     drifted.add((w, name.split("-")[0]))
@@ -537,6 +551,8 @@ def judge(ctx, trace, scenarios, confirm=True):
             bad_harness.append((name, judged, ev))
             continue
         verdicts.append((name, [w for w in judged if not w.startswith("x:")], f, s, li))
+    if confirm:
+        ctx.extra["consnet_scenarios_with_unanswered_proposal"] = len(noresp)
     if bad_harness:
         raise vlib.Inconclusive("consnet: the harness contradicts itself in %d scenario(s), first: %s" % (len(bad_harness), json.dumps(bad_harness[0], default=str)[:800]))
     ok_slow = True
@@ -568,6 +584,78 @@ def judge(ctx, trace, scenarios, confirm=True):
         ctx.violation(sig, {"what": "abstract predicate %s false on the real network.Server + consensus.Service (scenario %s)" % (w, name),
                             "all": judged, "judge": f.get("ctx", {}), "scenario": events[s], "history": compact(events[s:li + 1])})
     return not verdicts and ok_slow
+
+
+def impl_drift(ctx, trace, scenarios):
+    """ConsNetImpl's prediction (the generator runs it with look-up and request ATOMIC) against what the real node did in the realised
+    behaviour: did it answer the proposal before the height was played to the end, which connections did it close.  Disagreement while
+    the abstract level is satisfied is drift (information)."""
+    events = vlib.read_ndjson(trace)
+    model = {s["name"]: s["model"] for s in scenarios if "model" in s}
+    n = {"compared": 0, "answer": 0, "closed": 0}
+    cur, resp, closed, over = None, False, set(), False
+
+    def flush():
+        if cur in model:
+            m = model[cur]
+            n["compared"] += 1
+            d = {}
+            if (m["pc"] == "resp") != resp:
+                n["answer"] += 1
+                d["answer"] = {"model": m["pc"], "real": "PrepareResponse sent" if resp else "no PrepareResponse"}
+            if sorted(closed) != m["closed"]:
+                n["closed"] += 1
+                d["closed"] = {"model": m["closed"], "real": sorted(closed)}
+            if d and len([x for x in ctx.spec_drift if x.get("model") == "ConsNetImpl"]) < 4 and len(ctx.spec_drift) < 20:
+                ctx.spec_drift.append({"part": PART, "model": "ConsNetImpl", "scenario": cur, "disagreement": d})
+    for e in events:
+        ev = e["event"]
+        if ev == "init":
+            flush()
+            cur, resp, closed, over = e["sc"], False, set(), False
+        elif ev == "decide" or (ev == "xdef" and str(e.get("name", "")).startswith("decide-")):
+            over = True
+        elif ev == "own" and e.get("type") == "PrepareResponse" and e.get("view") == 0 and not over:
+            resp = True
+        elif ev == "close" and e.get("by") == "node" and not over:
+            closed.add(e["p"])
+    flush()
+    ctx.extra["consnet_impl_drift"] = n
+
+
+def established(events):
+    """What the code does where the statement is silent (information, never a verdict): what happens to the SENDER of each kind of
+    garbage (connection closed by the node or kept), whether payloads of another category are relayed, how many proposals went without
+    the node's answer and how the heights were decided."""
+    st = {"sender_closed": {}, "sender_kept": {}, "decided": {}}
+    starts = segments(events)
+    kinds, senders, closed, noresp = {}, {}, set(), set()
+    for i, e in enumerate(events):
+        ev = e["event"]
+        if ev == "init":
+            for (n, p), ks in senders.items():
+                for k in ks:
+                    d = st["sender_closed" if (n, p) in closed else "sender_kept"]
+                    d[k] = d.get(k, 0) + 1
+            kinds, senders, closed = {}, {}, set()
+        elif ev == "xdef":
+            kinds[e["x"]] = e.get("kind") or "valid"
+        elif ev == "s" and e.get("m") == "extensible":
+            k = kinds.get(e["x"], "valid")
+            if k != "valid":
+                senders.setdefault((e["n"], e["p"]), set()).add(k)
+        elif ev == "s" and e.get("m") == "raw":
+            senders.setdefault((e["n"], e["p"]), set()).add("raw:" + e.get("kind", ""))
+        elif ev == "close" and e.get("by") == "node":
+            closed.add((e["n"], e["p"]))
+        elif ev == "decide":
+            k = "view %d, %s%s" % (e["view"], e["via"], "" if e["decided"] else " (UNDECIDED)")
+            st["decided"][k] = st["decided"].get(k, 0) + 1
+    for (n, p), ks in senders.items():
+        for k in ks:
+            d = st["sender_closed" if (n, p) in closed else "sender_kept"]
+            d[k] = d.get(k, 0) + 1
+    return st
 
 
 def compact(evs, keep=160):
